@@ -12,7 +12,11 @@ protocol (`lean/DashLive/Driver/Store.lean`):
   ("ix", mfid)                            GET    /media/index/<mfid>
   ("em", spk, mfid, track)                POST   /stream/<spk>/<mfid>/edit
   ("dm", spk, mfid, variant)              DELETE /stream/<spk>/<mfid>  |  …/delete
-  ("ak", kid, computed)                   PUT    /key
+  ("ak", kid, computed[, route, spelling]) PUT   /key   (route 0)  |  POST /key, the HTML form (route 1); `kid` is
+                                          the canonical lower-case hex of the 16 bytes (what the model keys on),
+                                          `spelling` how the request writes it: lower|upper|mixed|0x|dashes|0xdashes
+  ("as", dir, title[, route])             route 1: POST /streams/add (HTML form, field `prefix`)
+  ("es", spk, dir, title, tref[, route])  route 1: POST /stream/<spk> as HTML form
   ("ek", kpk, computed)                   POST   /key/<kpk>
   ("dk", kpk)                             DELETE /key/<kpk>/delete
   ("am", name, title, periods)            PUT    /api/multi-period-streams/.add
@@ -45,6 +49,29 @@ TITLE_TOKENS = {
     "Xy": "&<", "Uu": "ü",
 }
 TOKEN_OF_TITLE = {v: k for k, v in TITLE_TOKENS.items()}
+
+
+def canonical_kid(text: str) -> str:
+    """a key id as the 16 bytes it denotes (lower-case hex): optional 0x prefix, dashes and letter case do not matter"""
+    t = (text or "").strip()
+    if t[:2].lower() == "0x":
+        t = t[2:]
+    return t.replace("-", "").lower()
+
+
+def spell_kid(kid: str, spelling: str) -> str:
+    if spelling == "upper":
+        return kid.upper()
+    if spelling == "mixed":
+        return "".join(ch.upper() if i % 2 else ch for i, ch in enumerate(kid))
+    if spelling == "0x":
+        return "0x" + kid
+    dashed = "-".join([kid[:8], kid[8:12], kid[12:16], kid[16:20], kid[20:]])
+    if spelling == "dashes":
+        return dashed.upper()
+    if spelling == "0xdashes":
+        return "0x" + dashed
+    return kid
 
 
 def title_text(token: str) -> str:
@@ -216,9 +243,9 @@ class World:
         js = r.get_json(silent=True) if r.is_json else None
         ok = False
         if k == "as":
-            ok = st == 200 and isinstance(js, dict) and "pk" in js
+            ok = (st == 302) if (len(op) > 3 and op[3] == 1) else (st == 200 and isinstance(js, dict) and "pk" in js)
         elif k == "es":
-            ok = st == 200
+            ok = (st == 302) if (len(op) > 5 and op[5] == 1) else st == 200
         elif k == "ds":
             ok = st == 200 and isinstance(js, dict) and (js.get("success") or "deleted" in js)
         elif k == "sd":
@@ -232,7 +259,10 @@ class World:
         elif k == "dm":
             ok = st == 200 and isinstance(js, dict) and "deleted" in js and not js.get("error")
         elif k == "ak":
-            ok = st == 200 and isinstance(js, dict) and "kid" in js and not js.get("error")
+            if len(op) > 3 and op[3] == 1:
+                ok = st == 302
+            else:
+                ok = st == 200 and isinstance(js, dict) and "kid" in js and not js.get("error")
         elif k == "ek":
             ok = st == 302
         elif k == "dk":
@@ -257,6 +287,13 @@ class World:
     def _send(self, op):
         c, k = self.c, op[0]
         H = {"Authorization": f"Bearer {self.jwt}"}
+        if k == "as" and len(op) > 3 and op[3] == 1:
+            return c.post("/streams/add", data={"title": title_text(op[2]), "prefix": op[1], "marlin_la_url": "",
+                                                "playready_la_url": "", "csrf_token": self.token("streams")})
+        if k == "es" and len(op) > 5 and op[5] == 1:
+            return c.post(f"/stream/{op[1]}", data={"title": title_text(op[3]), "directory": op[2], "marlin_la_url": "",
+                                                    "playready_la_url": "", "timing_ref": op[4] or "",
+                                                    "csrf_token": self.token("streams")})
         if k == "as":
             return c.put("/streams/add", json={"title": title_text(op[2]), "directory": op[1], "marlin_la_url": "",
                                                "playready_la_url": "", "csrf_token": self.token("streams")})
@@ -285,8 +322,15 @@ class World:
         if k == "dm":
             path = f"/stream/{op[1]}/{op[2]}" if op[3] == 0 else f"/stream/{op[1]}/{op[2]}/delete"
             return c.delete(path, query_string={"ajax": "1", "csrf_token": self.token("files")})
+        if k == "ak" and len(op) > 3 and op[3] == 1:
+            d = {"new_key": "1", "hkid": spell_kid(op[1], op[4] if len(op) > 4 else "lower"),
+                 "hkey": "0123456789ABCDEF0123456789abcdef", "csrf_token": self.token("keys")}
+            if op[2]:
+                d["computed"] = "on"
+            return c.post("/key", data=d)
         if k == "ak":
-            q = {"ajax": "1", "kid": op[1], "csrf_token": self.token("keys")}
+            q = {"ajax": "1", "kid": spell_kid(op[1], op[4] if len(op) > 4 else "lower"),
+                 "csrf_token": self.token("keys")}
             if not op[2]:
                 q["key"] = "0123456789abcdef0123456789abcdef"
             return c.put("/key", query_string=q)
@@ -418,7 +462,8 @@ class World:
         dup("media file name", [f["name"] for f in rows["files"]])
         dup("blob file name", [b["filename"] for b in rows["blobs"]])
         dup("blob of two media files", [f["blob"] for f in rows["files"]])
-        dup("key id", [k["kid"] for k in rows["keys"]])
+        # key ids are compared as the 16 bytes they denote, not as text
+        dup("key id", [canonical_kid(k["kid"]) for k in rows["keys"]])
         dup("key link", rows["links"])
         dup("multi-period stream name", [m["name"] for m in rows["mps"]])
         dup("period id within a multi-period stream", [(p["parent"], p["pid"]) for p in rows["periods"]])
@@ -435,6 +480,18 @@ class World:
                 out.append(f"key link ({a},{b}) points at a missing media file")
             if b not in kpk:
                 out.append(f"key link ({a},{b}) points at a missing key")
+        # a key link of a media file points at the key of one of the key ids the file is encrypted with
+        kid_of = {k["pk"]: canonical_kid(k["kid"]) for k in rows["keys"]}
+        content = {(d["dir"], d["filename"]): d["content"] for d in rows["disk"]}
+        for f in rows["files"]:
+            if not f["indexed"] or f["stream"] not in spk or f["blob"] not in bpk:
+                continue
+            c = content.get((sdir[f["stream"]], bname[f["blob"]]))
+            if c is None:
+                continue
+            for a, b in rows["links"]:
+                if a == f["pk"] and b in kid_of and kid_of[b] not in c[4]:
+                    out.append(f"media file {f['name']} is linked to the key of {kid_of[b]}, which is none of its key ids {list(c[4])}")
         for e in rows["errors"]:
             if e["media"] not in fpk:
                 out.append(f"error row {e['pk']} points at a missing media file {e['media']}")
